@@ -3,11 +3,13 @@
 package lmd
 
 import (
+	"bufio"
 	"context"
 	"fmt"
 	"io"
 	"net"
 	"sort"
+	"strings"
 	"sync"
 	"time"
 )
@@ -160,4 +162,20 @@ func (inst *VerifInstance) VerifStopDaemon() {
 	if lmd.waitGroupPeers != nil {
 		waitTimeout(context.Background(), lmd.waitGroupPeers, 2*time.Second)
 	}
+}
+
+// VerifAffectedTables returns the tables a request read-locks (Request.affectedTables), in locking order.
+func (inst *VerifInstance) VerifAffectedTables(text string) (tables []string, err error) {
+	req, _, err := NewRequest(context.Background(), inst.Lmd, bufio.NewReader(strings.NewReader(text)), ParseOptimize)
+	if err != nil {
+		return nil, err
+	}
+	if req == nil || req.Command != "" {
+		return nil, fmt.Errorf("not a GET request")
+	}
+	for _, name := range req.affectedTables(Objects.Tables[req.Table]) {
+		tables = append(tables, name.String())
+	}
+
+	return tables, nil
 }
